@@ -502,6 +502,21 @@ def gen_crps(rng, tier):
     return out
 
 
+def gen_voronoi_nearest(rng, tier):
+    out = []
+    for (nr, nc, xll, yll, csz) in small_grids(rng, tier)[::2]:
+        n = nr * nc
+        for _ in range(3):
+            ncell = rng.randint(1, min(n, 6)); cells = [rng.randrange(n) for _ in range(ncell)]
+            npnt = rng.randint(1, 4)
+            pts = []
+            for _ in range(npnt):
+                c = rng.choice(cells); r, q = divmod(c, nc)
+                pts += [xll + (q + 0.5 + rng.choice([0.0, 0.25, -0.125, 1.0, 0.0625])) * csz, yll + (nr - 1 - r + 0.5 + rng.choice([0.0, 0.25, -0.5, 0.0625])) * csz]
+            out.append([nr, nc, xll, yll, csz, ncell, cells, npnt, pts, [7.0] * npnt])
+    return out
+
+
 def gen_crps_decomp(rng, tier):
     out = []
     vals = [0.0, 1.0, 2.0, 3.0, 0.5, 2.0]
@@ -600,6 +615,7 @@ def kernels(*names):
     tab['c_accumulate#acyclic'] = (GRID, 'c_accumulate#acyclic', gen_accumulate_acyclic)
     tab['c_inside#evenodd'] = (INSIDE, 'c_inside#evenodd', gen_inside_evenodd)
     tab['c_crps#decomp'] = (CRPS, 'c_crps#decomp', gen_crps_decomp)
+    tab['c_voronoi#nearest'] = (GRID, 'c_voronoi#nearest', gen_voronoi_nearest)
     return [tab[n] for n in names]
 
 
